@@ -84,6 +84,7 @@ pub fn check(c: &Case) -> CheckResult {
             o.class_if(x1 < 0 || y1 < 0 || x2 > c.w || y2 > c.h, "rect-off-surface");
             o.class_if(*rw == 0 || *rh == 0, "zero-size");
             o.class_if(*rw < 0 || *rh < 0, "negative-size");
+            o.class_if((x2.min(c.w) - x1.max(0)) > 256 && !matches!(src, SrcSpec::Solid(_)), "span-beyond-256-with-varying-source");
             o.class_if(opts.blend != SRC_OVER, "non-srcover");
             o.class(src.kind());
             o.class("kind:fill_rect");
@@ -137,18 +138,26 @@ pub fn check(c: &Case) -> CheckResult {
 
 pub fn strategy(ctx: &Ctx) -> BoxedStrategy<Case> {
     let ctx = ctx.clone();
-    (1i32..=12, 1i32..=12)
+    // mostly small surfaces; one in twenty-five has rows or columns longer than 256 pixels (block-wise shading,
+    // narrowed counters), where a span of the fast path is longer than any fixed-size scratch block
+    prop_oneof![24 => (1i32..=12, 1i32..=12), 1 => prop_oneof![(257i32..=330, 1i32..=3), (1i32..=3, 257i32..=330)]]
         .prop_flat_map(move |(w, h)| {
             let ext = w.max(h) as f32;
             // an axis of the rectangle: (origin, size); 6 of 10 overlap the surface by construction, then the
             // same interval is expressed with a negative size half of the time
             let axis = |n: i32| {
                 let built = (-2..=n - 1).prop_flat_map(move |a| (Just(a), (a.max(0) + 1)..=(n + 2))).prop_flat_map(|(a, b)| prop_oneof![Just((a, b - a)), Just((b, a - b))]);
-                prop_oneof![6 => built.boxed(), 4 => (-4..=n + 4, -3..=n + 6).boxed()]
+                if n > 256 {
+                    // long axis: mostly spans longer than 256 pixels
+                    prop_oneof![4 => (-2..=20i32, 0..=30i32).prop_map(move |(a, cut)| (a, n + 2 - cut - a)).boxed(), 3 => built.boxed(), 3 => (-4..=n + 4, -3..=n + 6).boxed()].boxed()
+                } else {
+                    prop_oneof![6 => built.boxed(), 4 => (-4..=n + 4, -3..=n + 6).boxed()].boxed()
+                }
             };
             let rect = (axis(w), axis(h), any_src(&ctx, ext), opts_any()).prop_map(|((x, rw), (y, rh), src, opts)| Kind::Rect { x, y, rw, rh, src, opts });
             let clear = px_premul().prop_map(|color| Kind::Clear { color });
-            let image = (-6..=w + 2, -6..=h + 2, image_spec(6, 6), opts_any()).prop_map(|(x, y, img, opts)| Kind::Image { x, y, img, opts });
+            let img_spec = if w > 256 { prop_oneof![1 => image_spec(6, 6), 2 => (257i32..=300, 1i32..=2).prop_flat_map(|(iw, ih)| prop::collection::vec(px_premul(), (iw * ih) as usize).prop_map(move |data| ImageSpec { w: iw, h: ih, data }))].boxed() } else { image_spec(6, 6) };
+            let image = (-6..=w.min(12) + 2, -6..=h.min(12) + 2, img_spec, opts_any()).prop_map(|(x, y, img, opts)| Kind::Image { x, y, img, opts });
             (Just(w), Just(h), init_pixels(w, h), prop_oneof![8 => rect, 1 => clear, 2 => image])
         })
         .prop_map(|(w, h, init, kind)| Case { w, h, init, kind })
@@ -159,10 +168,10 @@ pub fn property(ctx: &Ctx) -> Property {
     let c = ctx.clone();
     Property {
         id: "C14",
-        rule: "cases: integer rectangles (origin in [-4,w+4], sizes in [-3,w+6] incl. zero and negative) on 1..12 px surfaces with random non-empty premultiplied contents, all 28 blend modes, solid/image/gradient sources, alpha in [0,1], AA and aliased; plus clear(c) and draw_image_at at integer positions. Oracle: bit-exact differential between four routes (fill_rect fast path; fill(PathBuilder::rect); fill_rect under a surface-covering clip rect; under a larger clip rect); clear under clip vs not; draw_image_at vs fill with translated image. Non-trivial: rectangle covers part but not all of the surface and (mode != SrcOver or source not an opaque solid at alpha 1); distinct by hash of the case.",
+        rule: "cases: integer rectangles (origin in [-4,w+4], sizes in [-3,w+6] incl. zero and negative) on 1..12 px surfaces (one in twenty-five 257..330 px long or tall, with images up to 300 px wide) with random non-empty premultiplied contents, all 28 blend modes, solid/image/gradient sources, alpha in [0,1], AA and aliased; plus clear(c) and draw_image_at at integer positions. Oracle: bit-exact differential between four routes (fill_rect fast path; fill(PathBuilder::rect); fill_rect under a surface-covering clip rect; under a larger clip rect); clear under clip vs not; draw_image_at vs fill with translated image. Non-trivial: rectangle covers part but not all of the surface and (mode != SrcOver or source not an opaque solid at alpha 1); distinct by hash of the case.",
         assumptions: vec!["the general route (rasterised rectangle + mask blitters) is itself judged by C01/C02/C03"],
         parts: vec![part("routes", 250_000, 4_000_000, move || strategy(&c), check)],
-        min_class_fraction: vec![("routes", "rect-partly-covers-surface", 0.3), ("routes", "non-srcover", 0.5), ("routes", "negative-size", 0.05), ("routes", "rect-off-surface", 0.2)],
+        min_class_fraction: vec![("routes", "rect-partly-covers-surface", 0.3), ("routes", "non-srcover", 0.5), ("routes", "negative-size", 0.05), ("routes", "rect-off-surface", 0.2), ("routes", "span-beyond-256-with-varying-source", 0.001)],
         panic_is_violation: false,
     }
 }
